@@ -71,4 +71,12 @@ TEXT = {
         "note": COMMON_NOTE,
         "technique": "Coq proof (fold over a deep embedding of modifiers) + differential correspondence of all New* builders",
     },
+    "C16": {
+        "text": "Theorems by induction on depth (any depth, arbitrary other options around the relay-message option): decapsulate(encapsulate m) = m, hop count +1 per level, innermost "
+                "message of any nest found, DecapsulateRelayIndex, relay-reply = per-level reconstruction with the same link/peer, echoed interface-id/remote-id and the reply innermost, "
+                "errors exactly on wrong outer type / missing inner message; advertise/request/reply builders' field and rejection rules. All functions are compared with the real code on "
+                "generated chains of depth up to 16/64, also after the wire.",
+        "note": COMMON_NOTE,
+        "technique": "Coq proof (induction over relay nests) + differential correspondence of relay functions and builders",
+    },
 }
